@@ -21,6 +21,9 @@ type Collection struct {
 
 	mu   sync.RWMutex // protects byId and rng from concurrent access
 	byId map[string]*item
+	// rngMu serialises use of rng: ids are generated while holding only the read lock of mu,
+	// so two writers can be generating ids at the same time
+	rngMu sync.Mutex
 	// "change" events contain a *CollectionChange instance
 	bus minibus.Bus
 }
@@ -360,6 +363,8 @@ func (c *Collection) itemSlice(readConfig *ReadRequest) []idItem {
 }
 
 func (c *Collection) genID() (string, error) {
+	c.rngMu.Lock()
+	defer c.rngMu.Unlock()
 	return GenerateUniqueId(c.rng, func(candidate string) bool {
 		if c.idInterceptor != nil {
 			candidate = c.idInterceptor(candidate)
